@@ -25,4 +25,6 @@ VARIANTS = [
      'edits': [(G, 'fmt = "{g.residue_type:<3s}{a.res_num:>4d}{a.chain_id:>2s}"', 'fmt = "{g.residue_type:<3s}{a.res_num:>4d}{a.chain_id:>2s}{a.element:>0s}"')]},
     {'name': 'identity-by-is-silent', 'expect': 'pass',
      'edits': [(D, "            if group1 == group2:\n                break\n            # do not calculate", "            if group1 is group2:\n                break\n            # do not calculate")]},
+    {'name': 'revert-fix-F20-folded-sort-key', 'rule': 'C06.R3',
+     'edits': [(CC, "        return (ord(atom.chain_id), atom.res_num, name_key)", "        return ord(atom.chain_id) * UNICODE_MULTIPLIER + atom.res_num * RESIDUE_MULTIPLIER + name_key")]},
 ]
